@@ -58,11 +58,17 @@ func foreignEc(c elliptic.Curve, oid asn1.ObjectIdentifier, d *big.Int, form str
 		sc = append([]byte{0, 0, 0}, sc...)
 	}
 	inner := ecPrivForm{Version: 1, PrivateKey: sc, PublicKey: asn1.BitString{Bytes: elliptic.Marshal(c, x, y), BitLength: 8 * len(elliptic.Marshal(c, x, y))}}
+	if form == "no-pub" || form == "no-pub-inner-params" {
+		// SEC1 makes the public key optional (JDK writes keys without it)
+		inner.PublicKey = asn1.BitString{}
+	}
 	outerParams := asn1.RawValue{FullBytes: must(asn1.Marshal(oid))}
 	switch form {
 	case "inner-params":
 		inner.NamedCurveOID = oid
 		outerParams = asn1.RawValue{}
+	case "no-pub-inner-params":
+		inner.NamedCurveOID = oid
 	case "both-params":
 		inner.NamedCurveOID = oid
 	case "no-params":
@@ -202,7 +208,7 @@ func genPkcs8(yield func(any)) {
 			yield(Pkcs8In{Kind: "ec", Curve: oid, D: d.Text(16), Form: "gopki"})
 		}
 		for _, d := range scalars[:9] {
-			for _, form := range []string{"inner-params", "both-params", "stripped", "padded", "no-params", "wrong-outer"} {
+			for _, form := range []string{"inner-params", "both-params", "stripped", "padded", "no-params", "wrong-outer", "no-pub", "no-pub-inner-params"} {
 				yield(Pkcs8In{Kind: "ec", Curve: oid, D: d.Text(16), Form: form})
 			}
 			if c.Params().BitSize <= 521 && oid[:3] != "1.3.36"[:3] || oid == "1.3.132.0.33" || oid == "1.2.840.10045.3.1.7" || oid == "1.3.132.0.34" || oid == "1.3.132.0.35" {
